@@ -434,7 +434,7 @@ func c05wExec(t *testing.T, r *kit.Run) func(wProg) kit.Outcome {
 		if len(obs.tainted) > 0 {
 			o.Classes = append(o.Classes, "offline-set(not judged)")
 		}
-		if fail != "" {
+		if fail != "" && res.Viol == nil {
 			o.Skip = true
 			fmt.Println("C05 bubble failure (not judged here):", firstLine(fail))
 			return o
